@@ -408,7 +408,13 @@ def opValidate (a : Art) : String :=
     let cla : CertLA := claOf r          -- Model/GenCert.lean (the certificates of C02_genParser_complete)
     let fc : FirstCert := fcOf r
     let b (x : Bool) : Nat := if x then 1 else 0
-    s!"safe={b (safe G T c && safeEnds T c)} complete={b (firstOk G fc && complete G T fc cla)} valid={b (validItems G T cla (vcertOf G))} acts={b (kindsTotal T)} recover={b anyRec} recwf={b (recWFb T ((T.terminals.idxOf? "error").getD 0))} noshifteof={b (noShiftEOFb T)}"
+    -- the property's own words: a recovery state is a state that can SHIFT the error symbol (independent of `itemCanRecover`)
+    let recExact : Bool :=
+      match T.terminals.idxOf? "error" with
+      | none => !anyRec
+      | some e => (List.range T.nStates).all fun s =>
+          T.canRecover[s]?.getD false == (match T.act s e with | some (.shift _) => true | _ => false)
+    s!"safe={b (safe G T c && safeEnds T c)} complete={b (firstOk G fc && complete G T fc cla)} valid={b (validItems G T cla (vcertOf G))} acts={b (kindsTotal T)} recover={b anyRec} recwf={b (recWFb T ((T.terminals.idxOf? "error").getD 0))} noshifteof={b (noShiftEOFb T)} recexact={b recExact}"
   | some (.error _) => "panic"
   | none => "nosyntax"
 
